@@ -11,7 +11,7 @@
    Obj k      = k-th instance made by the harness, of harness class A (k even) or B (k odd)
    Foreign k  = an object that is not an instance of the manager's backend class *)
 From Coq Require Import List Arith Bool NArith ZArith Uint63.
-From TLV Require Import Model.Backend Model.BackendDispatch Corr.Common.
+From TLV Require Import Model.Backend Model.BackendDispatch Model.BackendAbort Corr.Common.
 Import ListNotations.
 
 Definition cfg_backend : cfg := {| known := fun n => Nat.leb n 2; cname := fun k => if Nat.even k then 1 else 2 |}.
@@ -362,7 +362,7 @@ Definition dec_act (d : nat) : act * bool :=
    | 4 => AShared (Const (Obj 3)) | 5 => AShared FromReg | 6 => APush false | 7 => APush true
    | 8 => APop | 10 => AEmit ODone | 11 => AEmit OReraised | _ => ADispatch end, tagged).
 
-Definition wfpb (l : prog) : bool := forallb (fun ab => snd ab || is_private (fst ab)) l.
+(* wfpb / prog_ok: Model/BackendAbort.v - the boolean side condition of C17_micro_atomic_generic *)
 
 Fixpoint list_eqb {A} (eqb : A -> A -> bool) (a b : list A) : bool :=
   match a, b with [], [] => true | x :: a', y :: b' => eqb x y && list_eqb eqb a' b' | _, _ => false end.
@@ -394,7 +394,7 @@ Definition same_block (o : op) (top : list (inst * bool)) (extracted : prog) : b
           (fam top).
 
 Definition check_prog (o : op) (top : list (inst * bool)) (nlp : nat) (pr : prog) : bool :=
-  wfpb pr && has_lp pr && Nat.eqb (count_lp pr) nlp && same_block o top pr.
+  prog_ok pr && Nat.eqb (count_lp pr) nlp && same_block o top pr.
 
 Fixpoint dec_progs (n : nat) (l : list nat) : option (list prog) :=
   match n with
@@ -886,6 +886,110 @@ Example w_example :
   agree_w good = true /\ agree_w (firstn 25 good ++ [9] ++ skipn 26 good) = false.
 Proof. vm_compute. repeat split. Qed.
 
+(* ---- interrupted / raising calls (leading digit 13; Model/BackendAbort.v): atomic set-up history, ONE call of a thread
+   that (kind 0) runs by itself - it may raise at `backend.backend_name` of the nameless instance Obj 20, leaving its
+   partial effect behind (exec_nl) - or (kind 1) is interrupted by an exception the harness raises from a trace function
+   at some source line inside set_backend / backend_context: the observed state must be that of SOME sub-sequence of the
+   call's acts (every prefix = abort is one; all acts = the interruption came too late), for an entry also the state after entry + exit (the
+   interruption fell inside the try block, the finally clause ran); then what EVERY thread sees (get_backend() - 62 =
+   it raised AttributeError - and the identity of current_backend()), then atomic follow-up calls under exec_nl *)
+Definition aseen_ok (tenalg : bool) (s : st) (t : tid) (x : seen) : bool :=
+  let i := cur s t in
+  (if nl20 i then Nat.eqb (fst x) 62 else Nat.eqb (fst x) (name_of (cfg_of tenalg) i)) &&
+  match snd x with Some j => inst_eqb i j | None => false end.
+
+Fixpoint all_aseen (tenalg : bool) (s : st) (ths : list tid) (xs : list seen) : bool :=
+  match ths, xs with
+  | [], [] => true
+  | t :: ths', x :: xs' => aseen_ok tenalg s t x && all_aseen tenalg s ths' xs'
+  | _, _ => false
+  end.
+
+Definition raise_obs (o : op) : obs := match o with Exit_ _ _ => OExitFailed | _ => ORejected end.
+Definition answer (b : bst) (o : op) : obs := last (p_out (b_priv b (thr o))) ONoCtx.
+
+Definition nl_step (nf tenalg : bool) (b : bst) (o : op) : bst * obs :=
+  let r := exec_nl nf nl20 fixed_rules (cfg_of tenalg) b o in
+  (fst r, if snd r then raise_obs o else answer (fst r) o).
+
+Fixpoint acheck (nf tenalg : bool) (ths : list tid) (b : bst) (es : list (op * obs * list seen)) : bool :=
+  match es with
+  | [] => true
+  | (o, ob, xs) :: es' =>
+      let (b', ob') := nl_step nf tenalg b o in
+      obs_eqb ob' ob && all_aseen tenalg (to_st b') ths xs && acheck nf tenalg ths b' es'
+  end.
+
+Fixpoint sublists {A} (l : list A) : list (list A) :=
+  match l with [] => [[]] | x :: r => map (cons x) (sublists r) ++ sublists r end.
+
+(* nf: does set_backend read backend.backend_name BEFORE its first write?  read off the current source (ast) by the harness:
+   false for the tree as it is, true once build/fix_candidates/C17_nameless_instance.diff is applied *)
+Definition acase := (bool * bool * list (tid * inst) * list tid * list op * op * nat * obs * list seen
+                     * list (op * obs * list seen))%type.
+
+Definition agree_a (c : acase) : bool :=
+  let '(tenalg, nf, own0, ths, setup, o, kind, ob, xs, post) := c in
+  let cf := cfg_of tenalg in
+  let b1 := run_nl_hist nf nl20 fixed_rules cf (of_st (init (own_of own0))) setup in
+  match kind with
+  | 0 => acheck nf tenalg ths b1 ((o, ob, xs) :: post)
+  | _ =>
+      let acts := acts_of fixed_rules cf b1 o in
+      let n := length acts in
+      (* every prefix `abort ... k` is among them; sub-sequences rather than prefixes so that the ORDER in which the code
+         performs its (commuting) writes - an incidental detail - is not compared *)
+      let cands := map (fun l' => (bblock cf b1 (thr o, l'), Nat.eqb (length l') n)) (sublists acts) ++
+                   match o with
+                   | Enter t _ _ => [(astep fixed_rules cf (astep fixed_rules cf b1 (AOp o)) (AOp (Exit_ t true)), false)]
+                   | _ => []
+                   end in
+      existsb (fun cand : bst * bool =>
+                 let (b, completed) := cand in
+                 obs_eqb ob (if completed then answer b o else raise_obs o) &&
+                 all_aseen tenalg (to_st b) ths xs && acheck nf tenalg ths b post) cands
+  end.
+
+Definition decode_a (l : list nat) : option acase :=
+  match l with
+  | ta :: nth :: own :: nf :: ns :: l1 =>
+      match dec_ops ns l1 with
+      | Some (setup, k :: t :: a :: b :: c :: kind :: r :: l2) =>
+          match dec_seen1 nth l2 with
+          | Some (xs, np :: l3) =>
+              match dec_post nth np l3 with
+              | Some post => Some (dec_bool ta, dec_bool nf, if dec_bool own then [(0, Named 0)] else [], seq 0 nth, setup,
+                                   dec_op k t a b c, kind, dec_out r, xs, post)
+              | None => None
+              end
+          | _ => None
+          end
+      | _ => None
+      end
+  | _ => None
+  end.
+
+Definition agree_ab (l : list nat) : bool := match decode_a l with Some c => agree_a c | None => false end.
+
+(* set_backend(<nameless instance>) by thread 1: raises, thread 1 is on the nameless object (get_backend() raises: 62),
+   nobody else noticed; an interrupted non-local set_backend(Obj 1) that left only the thread's slot written; the same
+   observations with the shared default already changed are no prefix *)
+Example abort_case_example :
+  agree_ab [0;3;1;0;0; 0;1;1;20;0; 0;1; 0;2; 62;28; 0;2; 0] = true /\
+  agree_ab [0;3;1;0;0; 0;1;1;20;0; 0;1; 0;2; 0;2; 0;2; 0] = false /\
+  agree_ab [0;3;1;0;0; 0;1;1;20;1; 0;0; 0;2; 62;28; 0;2; 0] = true /\
+  agree_ab [0;3;1;0;0; 0;1;1;1;0; 1;1; 0;2; 2;9; 0;2; 0] = true /\
+  agree_ab [0;3;1;0;0; 0;1;1;1;0; 1;1; 0;2; 0;2; 0;2; 0] = true /\
+  agree_ab [0;3;1;0;0; 0;1;1;1;0; 1;0; 0;2; 2;9; 2;9; 0] = true /\
+  agree_ab [0;3;1;0;0; 0;1;1;1;0; 1;1; 0;2; 0;2; 2;9; 0] = false /\
+  (* an entry interrupted inside the try block: entry + exit; then a later set is compared step by step *)
+  agree_ab [0;3;1;0;0; 1;1;1;1;0; 1;1; 0;2; 0;2; 0;2; 1; 0;2;1;0;1; 0; 0;2; 0;2; 1;8] = true /\
+  (* the candidate repair (nf = 1): the nameless instance is rejected with nothing changed, in both flavours *)
+  agree_ab [0;3;1;1;0; 0;1;1;20;0; 0;1; 0;2; 0;2; 0;2; 0] = true /\
+  agree_ab [0;3;1;1;0; 0;1;1;20;1; 0;1; 0;2; 0;2; 0;2; 0] = true /\
+  agree_ab [0;3;1;1;0; 0;1;1;20;0; 0;1; 0;2; 62;28; 0;2; 0] = false.
+Proof. vm_compute. repeat split. Qed.
+
 Definition agree (c : case) : bool :=
   match digits (snd c) with
   | 3 :: l => match decode_m l with Some m => agree_m m | None => false end
@@ -898,6 +1002,7 @@ Definition agree (c : case) : bool :=
   | 10 :: l => agree_reg l
   | 11 :: l => agree_dn l
   | 12 :: l => agree_w l
+  | 13 :: l => agree_ab l
   | _ => agree_hist (snd c)
   end.
 
